@@ -23,6 +23,8 @@ import os
 import sys
 
 VERIF = os.path.dirname(os.path.dirname(os.path.abspath(__file__)))
+if os.path.dirname(os.path.abspath(__file__)) not in sys.path:
+    sys.path.insert(0, os.path.dirname(os.path.abspath(__file__)))
 REPO = os.environ.get("PACTI_REPO", "/repo")
 SRC = os.environ.get("PACTI_SRC", os.path.join(REPO, "src"))
 GEN = os.path.join(VERIF, "lean", "Pacti", "Gen")
@@ -284,6 +286,15 @@ def gen_consts(src):
     # 5. which fields the contract equalities compare (C19)
     out.extend(gen_eq_consts(src))
 
+    # 6. arithmetic_expr: do the parse actions of infixNotation evaluate the whole left-associative chain? (C09)
+    gram = ast.parse(open(os.path.join(src, "pacti/terms/polyhedra/syntax/grammar.py")).read())
+    out.append(f"/-- do the parse actions of `arithmetic_expr` fold a whole chain `a op b op c …` (`false`: only `a op b` is computed, the rest of the chain is ignored; the correct value is `true`) -/\ndef arithFold : Bool := {_arith_fold(gram)}\n")
+
+    # 7. C14, dictionary / file-entry part: which validation tests are present (tools/py2lean_dict.py)
+    from py2lean_dict import gen_dict_consts
+
+    out.append(gen_dict_consts(src, TranslateError))
+
     out.append("end Gen")
     return "\n".join(out) + "\n"
 
@@ -359,6 +370,68 @@ def gen_eq_consts(src):
                "    print alike?  (`false` = the pinned `str(self.constant)`) -/\n"
                f"def strConstPlusZero : Bool := {v}\n")
     return out
+
+
+def _parse_tol(rhs, b):
+    if rhs == b:
+        return "0"
+    import re
+
+    m = re.fullmatch(re.escape(b) + r"\+([0-9.e\-]+)\*\(1\+(?:np\.)?abs\(" + re.escape(b) + r"\)\)", rhs)
+    if not m:
+        raise TranslateError(f"unrecognised comparison right-hand side {rhs}")
+    from fractions import Fraction
+
+    fr = Fraction(m.group(1))
+    return f"({fr.numerator} : Rat) / {fr.denominator}"
+
+
+# ----------------------------------------------------------------------------------------------
+
+
+_ARITH_PINNED = {
+    "t[0][0]*t[0][2]ift[0][1]=='*'elset[0][0]/t[0][2]",
+    "t[0][0]+t[0][2]ift[0][1]=='+'elset[0][0]-t[0][2]",
+}
+_ARITH_FOLD_BODY = (
+    "group = tokens[0]\nvalue = group[0]\nfor op, operand in zip(group[1::2], group[2::2]):\n    if op == '*':\n        value = value * operand\n"
+    "    elif op == '/':\n        value = value / operand\n    elif op == '+':\n        value = value + operand\n    else:\n        value = value - operand\nreturn value"
+)
+
+
+def _arith_fold(gram):
+    """`arithmetic_expr = pp.infixNotation(floating_point_number, [(mult | div, 2, LEFT, action), (plus | minus, 2, LEFT, action)])`"""
+    calls = [n.value for n in gram.body if isinstance(n, ast.Assign) and len(n.targets) == 1
+             and ast.unparse(n.targets[0]) == "arithmetic_expr" and isinstance(n.value, ast.Call)]
+    if len(calls) != 1 or ast.unparse(calls[0].func) not in ("pp.infixNotation", "pp.infix_notation") or len(calls[0].args) != 2:
+        raise TranslateError("grammar.py: arithmetic_expr is not a single pp.infixNotation(operand, levels) call")
+    levels = calls[0].args[1]
+    if not isinstance(levels, ast.List) or len(levels.elts) != 2:
+        raise TranslateError("grammar.py: arithmetic_expr: two precedence levels expected")
+    if [ast.unparse(l.elts[0]).replace(" ", "") for l in levels.elts if isinstance(l, ast.Tuple) and len(l.elts) == 4] != ["mult|div", "plus|minus"]:
+        raise TranslateError("grammar.py: arithmetic_expr: levels are not (mult | div), (plus | minus)")
+    kinds = []
+    for l in levels.elts:
+        if ast.unparse(l.elts[1]) != "2" or not ast.unparse(l.elts[2]).endswith("LEFT"):
+            raise TranslateError("grammar.py: arithmetic_expr: binary left-associative levels expected")
+        act = l.elts[3]
+        if isinstance(act, ast.Lambda):
+            if ast.unparse(act.body).replace(" ", "").replace('"', "'") in _ARITH_PINNED:
+                kinds.append("false")
+            else:
+                raise TranslateError("grammar.py: arithmetic_expr: unrecognised lambda parse action")
+        elif isinstance(act, ast.Name):
+            f = _find_func(gram, None, act.id)
+            body = "\n".join(ast.unparse(s) for s in f.body if not (isinstance(s, ast.Expr) and isinstance(s.value, ast.Constant)))
+            if len(f.args.args) == 1 and f.args.args[0].arg == "tokens" and body == _ARITH_FOLD_BODY:
+                kinds.append("true")
+            else:
+                raise TranslateError(f"grammar.py: arithmetic_expr: unrecognised parse action {act.id}")
+        else:
+            raise TranslateError("grammar.py: arithmetic_expr: unrecognised parse action")
+    if len(set(kinds)) != 1:
+        raise TranslateError("grammar.py: arithmetic_expr: the two levels use different kinds of parse action")
+    return kinds[0]
 
 
 def _parse_tol(rhs, b):
